@@ -235,7 +235,8 @@ def check(ctx):
     ctx.unit('raw_read_sites', sites)
     ctx.unit('stored_value_flows', flows + tflows)
     ctx.floor('unpack strategies analysed', len(seen_funcs), 14)
-    ctx.floor('unpack strategies that store a raw-derived value', len(funcs_with_flow), 7)
+    # at least: the two Int decoders, a sized Data decoder and the two delimiter decoders
+    ctx.floor('unpack strategies that store a raw-derived value', len(funcs_with_flow), 5)
     ctx.floor('struct-template decode sites', tflows, 1)
     ctx.trust(*ASSUMPTIONS[:3])
 
